@@ -1,17 +1,27 @@
 #!/bin/sh
-# evaluate every complete (patch, demo, meta) triple under /tmp/seed/out/<ID>/ and keep the valid ones in /verif/seeded/
+# evaluate every complete (patch, demo, meta) triple under $SEEDROOT/<ID>/ (default /tmp/seed/out) and keep the valid ones
+# in /verif/seeded/<ID>-<TAG><n>/ ; delay_<n>.diff (on top of the patch) and delay_<n>_{baseline,control,on_original}.diff
+# (same delay on the unchanged code) are picked up when present
+SEEDROOT=${SEEDROOT:-/tmp/seed/out}
+TAG=${TAG:-}
 for id in "$@"; do
   for n in 1 2 3; do
-    d=/tmp/seed/out/$id
-    [ -f $d/patch_$n.diff ] && [ -f $d/demo_${n}_test.go ] && [ -f $d/meta_$n.json ] || continue
-    python3 /verif/tools/seed_eval.py $d $n --keep $id-$n > /tmp/seed/out/$id/eval_$n.json 2>&1
-    python3 - "$id" "$n" <<'PY'
+    d=$SEEDROOT/$id
+    [ -f $d/patch_$n.diff ] && [ -f $d/demo_${n}_test.go ] || continue
+    [ -f $d/meta_$n.json ] || echo "{\"property\": \"$id\"}" > $d/meta_$n.json
+    extra=""
+    [ -f $d/delay_$n.diff ] && extra="$extra --delay $d/delay_$n.diff"
+    for b in baseline control on_original; do
+      [ -f $d/delay_${n}_$b.diff ] && extra="$extra --delay-base $d/delay_${n}_$b.diff"
+    done
+    python3 /verif/tools/seed_eval.py $d $n --keep $id-$TAG$n $extra $EXTRA > $d/eval_$n.json 2>&1
+    python3 - "$id" "$n" "$d" <<'PY'
 import json,sys
-id,n=sys.argv[1],sys.argv[2]
+id,n,d=sys.argv[1],sys.argv[2],sys.argv[3]
 try:
-    o=json.load(open(f'/tmp/seed/out/{id}/eval_{n}.json'))
+    o=json.load(open(f'{d}/eval_{n}.json'))
 except Exception as e:
-    print(id,n,'EVAL-ERROR',open(f'/tmp/seed/out/{id}/eval_{n}.json').read()[-300:]); sys.exit()
+    print(id,n,'EVAL-ERROR',open(f'{d}/eval_{n}.json').read()[-300:]); sys.exit()
 own=o['checks_fired'].get(id,[])
 others={k:len(v) for k,v in o['checks_fired'].items() if k!=id}
 print(f"{id}-{n} {'valid' if o['valid'] else 'INVALID'} demo:{o.get('demo_without_patch')}/{o.get('demo_with_patch')} suite:{o.get('suite_passes_with_patch')} own:{'YES' if own else 'no'} {own[:2]} others:{others}")
